@@ -44,6 +44,7 @@ var copyOps = []string{"Set", "Neg", "Abs", "Copy", "SetMantExp", "MantExp", "Se
 var setterOps = []string{"SetInt64", "SetUint64", "SetFloat64", "SetInt", "SetRat", "SetFloat", "SetBitsExp", "BitsSelf"}
 var textOps = []string{"Parse", "SetString", "Scan", "Sscanf", "UnmarshalText", "UnmarshalJSON", "TextCopy", "JSONCopy"}
 var gobOps = []string{"GobCopy", "GobDecode"}
+var ctxHistOps = []string{"c.Add", "c.Sub", "c.Mul", "c.Quo", "c.FMA", "c.Sqrt", "c.Neg", "c.Abs", "c.Set", "c.Err"}
 var getterOps = []string{"Cmp", "Sign", "IsInt", "MinPrec", "Attrs", "Int", "Int64", "Uint64", "Rat", "Float", "Float32", "Float64",
 	"Text", "Append", "Format", "String", "GobEncode", "MarshalText", "MarshalJSON"}
 
@@ -81,6 +82,13 @@ func genHist(prop string, seed uint64, tier string) *Scenario {
 	add(0.4, textOps, 1)
 	add(0.4, gobOps, 2)
 	add(0.35, getterOps, 1)
+	if prop != "C09" && r.chance(0.3) {
+		// operations through a context.Context (receiver distinct from its operands)
+		sc.Ctx = &CtxSpec{Prec: uint(r.genPrec(r.pick(1, 2, 4), true)), Mode: uint8(r.intn(6))}
+		for i := 0; i < 3; i++ {
+			menu = append(menu, ctxHistOps...)
+		}
+	}
 	if len(menu) == 0 {
 		menu = arithOps
 	}
@@ -140,6 +148,13 @@ func genHist(prop string, seed uint64, tier string) *Scenario {
 			case 4:
 				if len(op.A) > 1 {
 					op.A[1] = op.A[0]
+				}
+			}
+		}
+		if strings.HasPrefix(op.Name, "c.") && inf.writes {
+			for k := range op.A {
+				if op.A[k] == op.Z {
+					op.A[k] = (op.Z + 1 + r.intn(nv-1)) % nv
 				}
 			}
 		}
@@ -247,6 +262,9 @@ func genParams(r rng, sc *Scenario, op *Op) {
 		switch r.intn(8) {
 		case 0:
 			op.S = r.pickS("+Inf", "-Inf", "0", "-0")
+		case 1:
+			// the ends of big.Float's exponent range
+			op.S = fmt.Sprintf("%s0x1.%xp%s%d", r.pickS("", "-"), r.intn(1<<16), r.pickS("-", "+"), 2147483000+r.intn(648))
 		default:
 			op.S = fmt.Sprintf("%s%d.%de%d", r.pickS("", "-"), r.intn(1000), r.intn(100000), r.rangeI(-400, 400))
 		}
